@@ -228,6 +228,22 @@ fn bb_replays(ctx: &Ctx, report: &mut Report) -> u64 {
                 Err(e) => report.infra_errors.push(e),
             }
         }
+        if r["engine"].as_str().is_some_and(|e| e.starts_with("BBINC-")) {
+            match replay_inc_bb(r) {
+                Ok(res) => {
+                    n += 1;
+                    if let Some(msg) = res.violation {
+                        println!("  replay {} still fails: {}", path.display(), msg);
+                        report.fail(Failure {
+                            message: msg,
+                            signature: res.signature.unwrap_or_default(),
+                            replay: res.replay,
+                        });
+                    }
+                }
+                Err(e) => report.infra_errors.push(e),
+            }
+        }
         if r["engine"] == "BB-c18" {
             match replay_c18(r) {
                 Ok(res) => {
@@ -839,8 +855,25 @@ fn c15(ctx: &Ctx) -> i32 {
 }
 
 fn inc_part(ctx: &Ctx, report: &mut Report, which: &'static str, neutral: bool, cases: u32, rule: &str, stream: u64) {
+    bb_replays(ctx, report);
     if ctx.replay.is_some() {
         return;
+    }
+    {
+        let pr = PropRun {
+            ctx,
+            engine: "BB",
+            rule: "a sample of the same generated histories through the real binary (two invocations of `zinoma c` around the edits, run/skip read from script traces): covers the main -> actor -> incremental wiring",
+            total_cases: ctx.tier.pick(24, 300),
+            threads: 8.min(ctx.threads),
+            max_shrink_iters: 40,
+            stream: stream + 500,
+        };
+        let (part, failures) = run_prop(&pr, || inc_case(neutral), |c: &IncCase| eval_inc_bb(c, which));
+        report.add(part);
+        for f in failures {
+            report.fail(f);
+        }
     }
     let pr = PropRun {
         ctx,
